@@ -636,6 +636,9 @@ func init() {
 						s = fmt.Sprint(v.val != 0)
 					case "f64":
 						s = fmt.Sprintf("%016x", v.val)
+						if f := v.ConstF64(); f != f {
+							s = "NaN"
+						}
 					}
 				}
 			case string:
